@@ -124,8 +124,11 @@ def verilate(sources, top, prefix, workdir, manifest, extra_args=(), with_prelud
         name, kind, body = m.group(1), m.group(2), m.group(3)
         lines = []
         for l in body.split("\n"):
-            t = l.strip()
-            if not t or t.startswith("//") or t == "public:":
+            t = re.sub(r"\s*//.*$", "", l).strip()
+            if not t or t == "public:":
+                continue
+            if re.match(r"(VerilatedMutex|VerilatedVcdC\*) \w+", t) or re.match(r"void _traceDump\w*\(\);", t):
+                fire("drop trace-dumper member", 1)
                 continue
             if re.match(r"~?%s\(" % re.escape(name), t) or t.startswith("VL_UNCOPYABLE") or t.startswith("void __Vconfigure") or t.startswith("const char* name()"):
                 fire("drop ctor/dtor/method", 1)
@@ -134,6 +137,10 @@ def verilate(sources, top, prefix, workdir, manifest, extra_args=(), with_prelud
                 fire("drop scope/model pointer", 1)
                 continue
             ma = re.match(r"VlUnpacked<(\w+)/\*[^*]*\*/, (\d+)> (\w+);", t)
+            if ma and int(ma.group(2)) <= 64:
+                lines.append("  %s %s[%s]; /* small VlUnpacked kept as an array */" % (ma.group(1), ma.group(3), ma.group(2)))
+                fire("small VlUnpacked -> array", 1)
+                continue
             if ma:
                 arrays[(name, ma.group(3))] = int(ma.group(2))
                 lines.append("  %s *%s; /* VlUnpacked<%s, %s> */" % (ma.group(1), ma.group(3), ma.group(1), ma.group(2)))
@@ -145,8 +152,8 @@ def verilate(sources, top, prefix, workdir, manifest, extra_args=(), with_prelud
             if t2 != t:
                 fire("VlTriggerVec<1>", 1)
             t2 = re.sub(r"\* const vlSymsp;", "* vlSymsp;", t2)
-            t2 = re.sub(r" = false;", ";", t2)
-            if not re.match(r"(VL_(IN|OUT)\d*\(\w+,\d+,\d+\);|(CData|SData|IData|QData)/\*[^*]*\*/ \w+;|VlTriggerVec1 \w+;|\w+\* \w+;|\w+\s+\w+;|bool \w+;)$", t2):
+            t2 = re.sub(r" = (false|0);", ";", t2)
+            if not re.match(r"(VL_(IN|OUT)\d*\(\w+,\d+,\d+\);|(CData|SData|IData|QData)/\*[^*]*\*/ \w+;|VlTriggerVec1 \w+;|\w+\* \w+;|\w+\s+\w+;|bool \w+;|uint32_t \w+;|(CData|SData|IData|QData) \w+\[\d+\]; /\*.*\*/)$", t2):
                 raise ExtractionError("verilator header %s: member not understood: %r" % (name, t))
             lines.append("  " + t2)
         structs[name] = lines
